@@ -1662,7 +1662,7 @@ func ruleFindRoot(c *Ctx) []Obligation {
 	// … or the receiver's node with a fallback that is consulted only while no node was found yet (an entry made on
 	// demand has none: the nearest ancestor's is taken)
 	fallbackOK := false
-	if phi0, isPhi := ctx.(*ssa.Phi); isPhi {
+	if phi0 := ctx; isPhiOrHelperCall(ctx) {
 		web := map[ssa.Value]bool{}
 		var leaves []ssa.Value
 		var walk func(v ssa.Value)
@@ -1677,13 +1677,19 @@ func ruleFindRoot(c *Ctx) []Obligation {
 				}
 				return
 			}
+			if hr := helperReturns(v); len(hr) > 0 {
+				for _, r := range hr {
+					walk(r)
+				}
+				return
+			}
 			leaves = append(leaves, v)
 		}
 		walk(phi0)
 		fromRecv, othersGuarded := false, true
 		for _, l := range leaves {
 			_, lf, lb := loadedField(l)
-			if lf == m.fNode && isParamN(find, lb, 0) {
+			if lf == m.fNode && lb != nil && isParamN(find, resolveArg(rootOf(lb)), 0) {
 				fromRecv = true
 				continue
 			}
@@ -2377,4 +2383,11 @@ func (c *Ctx) localOnlyType(t *types.Named) bool {
 	}
 	localOnlyMemo[t] = true
 	return true
+}
+
+func isPhiOrHelperCall(v ssa.Value) bool {
+	if _, isPhi := v.(*ssa.Phi); isPhi {
+		return true
+	}
+	return len(helperReturns(v)) > 0
 }
